@@ -92,6 +92,13 @@ impl MetaT for MetaLoose {
     }
 }
 
+/// An author's metadata type with a field TOML has no representation for.
+#[derive(Serialize)]
+struct MetaUnwritable {
+    version: String,
+    checksum: u64,
+}
+
 pub trait MetaT: Serialize + DeserializeOwned + Clone + 'static {
     fn to_val(&self) -> MetaVal;
     fn from_val(v: &MetaVal) -> Self;
@@ -244,6 +251,13 @@ impl<MAC: 'static, RAC: 'static> RefOps for LayerRef<SimBp, MAC, RAC> {
             MetaVal::A { .. } => LayerRef::write_metadata(self, MetaA::from_val(m)),
             MetaVal::B { .. } => LayerRef::write_metadata(self, MetaB::from_val(m)),
             MetaVal::Loose { .. } => LayerRef::write_metadata(self, MetaLoose::from_val(m)),
+            MetaVal::Unwritable => LayerRef::write_metadata(
+                self,
+                MetaUnwritable {
+                    version: "1".into(),
+                    checksum: u64::MAX,
+                },
+            ),
         }
         .map_err(conv_err)
     }
